@@ -21,6 +21,7 @@ ASSUMPTIONS = [
     "the dying process makes no further storage/provider call after the crash point (every later call raises)",
     "a new process sees both providers' event cursors at 'latest' and restores its position from storage",
     "CRASH_THEN_TOUCH_NEW: after a crash arm no user op of that window touches an object created or written in that window (open findings KF-29, KF-27)",
+    "CRASH_DIRMOVE_PATHSTYLE: no crash in a window that renames a folder when either side is path-style (open finding KF-30: the multi-row commit of a folder rename is not atomic)",
     "envelope hazards PATH_REUSE, DIRMOVE_ISOLATED, DIRMOVE_TOMB, XSIDE; the final tree is NOT required to equal the no-crash expectation (statement asks for convergence, no loss, no conflict artefacts)",
 ]
 
@@ -34,6 +35,9 @@ def budget(tier):
 def _arm(d, world, acts):
     """Emit a crash arm; from here to the end of the window no op may touch an object created or written in this
     window (hazard CRASH_THEN_TOUCH_NEW, open findings KF-29 / KF-27).  Arms expire at the next quiet point."""
+    if world.win.dirmoves and any(world.path_style):
+        world.excluded["CRASH_DIRMOVE_PATHSTYLE"] += 1      # KF-30: no crash in a window that moved a folder on a path-style side
+        return
     kind = d.choice(("storage", "provider"))
     acts.append(["crash", kind, d.int(0, 10 if kind == "storage" else 3)])
     world.guard_retouch = "window"
@@ -69,6 +73,8 @@ def crash_guard_ok(trace, always=False):
         elif a[0] == "settle":
             world.settle()
         elif a[0] == "crash" and not always:
+            if world.win.dirmoves and any(world.path_style):
+                return False
             world.guard_retouch = "window"
     return True
 
